@@ -702,7 +702,7 @@ func c05Requests(ts []*refTemplate, tails map[byte]bool, maxLen int, rng *ev.Ran
 			vals = append(vals, string([]byte{b}), "v"+string([]byte{b}), string([]byte{b})+"v", "v"+string([]byte{b})+"w")
 		}
 	}
-	vals = append(vals, "", "x%2Fy", "%2F", "q/r", "x%2fy", "%41", "a%20b", "é", "..", ".")
+	vals = append(vals, "", "x%2Fy", "%2F", "q/r", "x%2fy", "%41", "a%20b", "é", "..", ".", "a+b", "a+b%2Fc", "%2B", "a%2Bb+c", "+")
 	dedup := map[string]bool{}
 	var pool []string
 	for _, v := range vals {
